@@ -137,19 +137,20 @@ theorem kept_weight (hk : SvdKernel k) {tol : ℝ} (htol : 0 ≤ tol) (s : List 
     constructor <;> nlinarith
 
 /-- the dummy index kept by `from_vector` for an all-discarded spectrum is a valid strictly increasing index list -/
-theorem fvKeep_valid {ρ : Type} {R : List Nat} {s : List ρ} (h : R.Pairwise (· < ·) ∧ ∀ i ∈ R, i < s.length) :
+theorem fvKeep_valid {ρ : Type} [OfNat ρ 0] [DecidableEq ρ] {R : List Nat} {s : List ρ}
+    (h : R.Pairwise (· < ·) ∧ ∀ i ∈ R, i < s.length) :
     (MPS.fvKeep R s).Pairwise (· < ·) ∧ ∀ i ∈ MPS.fvKeep R s, i < s.length := by
   unfold MPS.fvKeep
   split
   · rename_i hc
-    rw [Bool.and_eq_true] at hc
+    rw [Bool.and_eq_true, Bool.and_eq_true] at hc
     refine ⟨List.pairwise_singleton _ _, ?_⟩
     intro i hi
     rw [List.mem_singleton] at hi
     subst hi
     have : s ≠ [] := by
       intro h0
-      have := hc.2
+      have := hc.1.2
       rw [h0] at this
       simp at this
     exact List.length_pos_iff.2 this
@@ -181,8 +182,8 @@ theorem kept_weight_keep (hk : SvdKernel k) {tol : ℝ} (htol : 0 ≤ tol) (s : 
   unfold MPS.fvKeep
   split
   · rename_i hc
-    rw [Bool.and_eq_true, List.isEmpty_iff] at hc
-    rw [hc.1] at hkw
+    rw [Bool.and_eq_true, Bool.and_eq_true, List.isEmpty_iff] at hc
+    rw [hc.1.1] at hkw
     have h0 := sq_getD_le_sqSum s 0
     simp only [List.map_cons, List.map_nil, sqSum, List.sum_cons, List.sum_nil, add_zero] at hkw ⊢
     have hnn : 0 ≤ s.getD 0 0 * s.getD 0 0 := mul_self_nonneg _
@@ -496,21 +497,39 @@ theorem fromVector_ok (hk : SvdKernel k) (htol : 0 ≤ tol) (htol1 : tol < 1) (h
   simp only [h1, pyAssert, if_true, bind, Except.bind, hloop, h2, h3, if_false, pure, Except.pure]
   exact ⟨_, rfl⟩
 
-/-! ## after the repair of F12 the loop returns on EVERY remainder (zero vector, any tolerance) -/
+/-! ## after the repair of F12 the loop returns on EVERY remainder, the zero vector included (`0 ≤ tol < 1`) -/
 
-theorem fvKeep_ne_nil {ρ : Type} (R : List Nat) {s : List ρ} (hs : s ≠ []) : MPS.fvKeep R s ≠ [] := by
-  unfold MPS.fvKeep
-  split
-  · simp
-  · rename_i hc
-    intro h0
-    apply hc
-    rw [h0]
-    cases s with
-    | nil => exact absurd rfl hs
-    | cons x s => rfl
+/-- with the norm / argsort contracts and `0 ≤ tol < 1` the index list used by `from_vector` is never empty: either the rule keeps
+something, or the norm of the spectrum vanishes, every singular value is zero and the dummy index is kept -/
+theorem fvKeep_ne_nil (hk : SvdKernel k) (htol : 0 ≤ tol) (htol1 : tol < 1) {s : List ℝ} (hs : s ≠ []) :
+    MPS.fvKeep (retainedBondIndices k.dnorm k.dargsort s tol) s ≠ [] := by
+  have hn := hk.norm s
+  by_cases hw : k.dnorm s = 0
+  · -- zero norm: every value is zero, the dummy index is kept
+    have hw2 : k.dnorm s * k.dnorm s = sqSum s := hn.2
+    have h0 : sqSum s = 0 := by rw [← hw2, hw, mul_zero]
+    have hz : ∀ x ∈ s, x = 0 := C12.sum_mul_self_eq_zero s h0
+    unfold MPS.fvKeep
+    rw [if_pos]
+    · simp
+    · rw [Bool.and_eq_true, Bool.and_eq_true, List.isEmpty_iff, List.all_eq_true]
+      refine ⟨⟨C12.rule_zero k.dnorm k.dargsort s tol hw, ?_⟩, fun x hx => by simpa using hz x hx⟩
+      cases s with
+      | nil => exact absurd rfl hs
+      | cons x s => rfl
+  · -- positive norm: the kept relative weight is at least `1 - tol > 0`
+    have hkw := C12.rule_kept_weight k.dnorm k.dargsort s tol hn hw (hk.sort _) htol
+    have hne : retainedBondIndices k.dnorm k.dargsort s tol ≠ [] := by
+      intro h0
+      rw [h0] at hkw
+      simp [C12.weightOf] at hkw
+      linarith
+    unfold MPS.fvKeep
+    split
+    · simp
+    · exact hne
 
-theorem fvLoop_total (hk : SvdKernel k) (hd : 0 < d) : ∀ (rem : Nat) (v : Mat 𝕜),
+theorem fvLoop_total (hk : SvdKernel k) (htol : 0 ≤ tol) (htol1 : tol < 1) (hd : 0 < d) : ∀ (rem : Nat) (v : Mat 𝕜),
     v.n = d ^ rem → 0 < v.m →
     ∃ As vend, MPS.fromVectorLoop k d rem v tol = .ok (As, vend) ∧ vend.n = 1 ∧ (0 < rem → vend.m = 1)
   | 0, v, hvn, _ => ⟨[], v, rfl, by simpa using hvn, fun h => absurd h (Nat.lt_irrefl 0)⟩
@@ -528,8 +547,8 @@ theorem fvLoop_total (hk : SvdKernel k) (hd : 0 < d) : ∀ (rem : Nat) (v : Mat 
       rw [sl] at this
       omega
     have hK : 0 < (MPS.fvIdx k d rem v tol).length :=
-      List.length_pos_iff.2 (fvKeep_ne_nil _ hsne)
-    obtain ⟨As', vend', hrec, hn1, hm1⟩ := fvLoop_total hk hd rem (MPS.fvV k d rem v tol) hV'n
+      List.length_pos_iff.2 (fvKeep_ne_nil hk htol htol1 hsne)
+    obtain ⟨As', vend', hrec, hn1, hm1⟩ := fvLoop_total hk htol htol1 hd rem (MPS.fvV k d rem v tol) hV'n
       (by rw [MPS.fvV_m]; exact hK)
     refine ⟨MPS.fvA k d rem v tol :: As', vend', ?_, hn1, fun _ => ?_⟩
     · rw [MPS.fromVectorLoop_succ]
@@ -545,11 +564,12 @@ theorem fvLoop_total (hk : SvdKernel k) (hd : 0 < d) : ∀ (rem : Nat) (v : Mat 
         omega
       · exact hm1 h
 
-/-- **`MPS.from_vector` returns for every vector of length `d^n` (`d, n ≥ 1`) and every tolerance** -- also for the zero
-vector (F12) and for `tol ≥ 1` (then a single singular value is kept per bond). -/
-theorem fromVector_total (hk : SvdKernel k) (hd : 0 < d) {n : Nat} (hn : 0 < n) {v : List 𝕜} (hvl : v.length = d ^ n) :
+/-- **`MPS.from_vector` returns for every vector of length `d^n` (`d, n ≥ 1`), the zero vector included (F12), and every
+tolerance `0 ≤ tol < 1`.** -/
+theorem fromVector_total (hk : SvdKernel k) (htol : 0 ≤ tol) (htol1 : tol < 1) (hd : 0 < d) {n : Nat} (hn : 0 < n)
+    {v : List 𝕜} (hvl : v.length = d ^ n) :
     ∃ ψ, MPS.fromVector k d n v tol = .ok ψ := by
-  obtain ⟨As, vend, hloop, hn1, hm1⟩ := fvLoop_total (tol := tol) hk hd n
+  obtain ⟨As, vend, hloop, hn1, hm1⟩ := fvLoop_total (tol := tol) hk htol htol1 hd n
     (⟨1, v.length, fun _ c => v.toArray.getD c 0⟩ : Mat 𝕜) hvl Nat.one_pos
   have hc := fvLoop_inv n _ As vend hloop
   have hlen : As.length = n := by
